@@ -18,7 +18,7 @@ REALSTD = "bufio.Scanner, strings.*, unicode/utf8, sort.*, time.Time comparison 
 FMT = "fmt.*printf/Fprint*/Sprint*/Errorf: literal text verbatim, %s of strings inlined and padded, numeric verbs of non-constant operands become opaque rendered pieces R(verb, value); two pieces are equal iff verb and value are equal"
 BUFIO = "bufio.Writer: data pending until Flush; Flush performs one Write of everything pending (none if nothing is pending); an error of the underlying writer is sticky (reports shorter than the 4096-byte buffer: stated bound)"
 CSVW = "encoding/csv.Writer: Write(record) appends one record with its fields unchanged; Flush/Error as bufio (RFC 4180 quoting is the library's contract, not re-verified)"
-TMPL = "text/template: Execute(w, data) writes one opaque piece carrying (template text, data); template rendering itself is outside the claim"
+TMPL = "text/template: the template text is parsed by the real text/template/parse package and the parse tree is evaluated by the executor over its own values (text, field chains, if, range, variables, FuncMap calls executed from the target's SSA, printf through the fmt model); constructs outside this subset abort the path as unsupported"
 TIME = "time.Parse: headings produced by verifDay map to symbolic instants 2021-01-01 + d days (d a solver variable) under the layout they were written in and fail under any other layout; concrete text uses the real function. Time.Format returns the heading text for such instants under the same layout, an opaque piece otherwise. Time.AddDate(0,0,n) adds n*86400 s (UTC). Time.Sub is uninterpreted"
 DATA = "recipe, food and element names are drawn from a small ordered universe where the code uses names only through ==, < and map keys (data independence); the parser, which inspects bytes, gets symbolic bytes"
 REAL = "float64 encoded as Real in the runs marked float=real: rounding, overflow to Inf, NaN and -0 are outside those runs"
@@ -70,12 +70,13 @@ specs["C02"] = {"runs": [
     run(CMD + "register:Harness_old_reg_reporter", Q, {"E": 2}, "real", cover=["printed"]),
     run(CMD + "reporter:Harness_day_item", QT, {"E": 1, "bookshapes": 4, "earlier": 1}, "real", cover=["item"], note="a day reported after another day: what it shows does not depend on the earlier day (state kept between days)"),
     run("cmd/hranoprovod-cli:Harness_app_pipeline", Q, {"command": 0, "posbook": 1, "E": 1, "shapes": 3}, "real", cover=["ran"], note="whole application, `register --use-old-reg-reporter`: book and log as text with symbolic values through the real parser and resolver (nested recipes, repeated ingredients, forward/backward references), two days, against the reference model; book amounts assumed positive"),
+    run("cmd/hranoprovod-cli:Harness_app_pipeline", QT, {'command': 9, 'posbook': 1, 'E': 1, 'shapes': 3}, "real", cover=["ran"], note='the same through the default template (rendered by the template interpreter)'),
     run("cmd/hranoprovod-cli:Harness_app_pipeline", T, {"command": 0, "posbook": 0, "E": 2, "shapes": 4}, "real", cover=["ran"], max_paths=2000000),
     run("_root:Harness_merge_duplicates", QT, {"E": 5}, "real", cover=["merged"], note="every repetition pattern of <=5 entries over three foods"),
     run(CMD + "reporter:Harness_day_item", T, {"E": 3, "bookshapes": 4}, "real", cover=["item"]),
     run(CMD + "register:Harness_old_reg_reporter", T, {"E": 3}, "real", cover=["printed"]),
  ], "assumptions": [REAL, DATA, "the register of several days is the per-day register repeated in file order (decided by C12's composition check)"],
- "outside_claim": ["text/template rendering: for the template reporter the claim is about the reportItem handed to Execute", "%10.2f rendering", "days with more than E entries"],
+ "outside_claim": ["%10.2f rendering (digits)", "days with more than E entries"],
  "stubs": [FMT, BUFIO, TMPL]}
 
 specs["C03"] = {"runs": [
@@ -85,13 +86,18 @@ specs["C03"] = {"runs": [
     run(CMD + "balance:Harness_balance_single", Q, {"F": 2, "catalogue": 6}, "real", cover=["printed"], note="--single-element X in all three modes: foods defining X (any amount incl. 0), defined without X, undefined"),
     run(CMD + "balance:Harness_balance_single", T, {"F": 3, "catalogue": 14}, "real", cover=["printed"]),
     run(CMD + "balance:Harness_reports_agree", Q, {"D": 1, "E": 2}, "real", owned=["balance-grand-total=sum-of-top-rows", "balance-rows-well-formed", "balance-grand-total-labelled"], note="--single-element: grand total = sum of the top-level rows"),
+    run("cmd/hranoprovod-cli:Harness_app_pipeline", QT, {'command': 2}, "real", cover=["ran"], note='whole application, `balance -s x` on book and log text: grand total = sum over logged foods of quantity x resolved amount (through the real parser and resolver)'),
+
  ], "assumptions": [REAL, "path segments over the alphabet {a,b}: the tree uses names only through map keys, sorting and splitting on '/'"],
  "outside_claim": ["text layout beyond '<amount> | <indent><label>'", "names with empty segments (a//b)", "the amount of a directly logged element's row under --single-element (asserted in C07)"],
  "stubs": [FMT, BUFIO]}
 
-units = ["report-unresolved", "report-quantity", "report-quantity-desc", "report-totals", "register-group-by-food", "balance", "register", "register-old", "csv-database-resolved", "report-element-total"]
-specs["C05"] = {"runs": [run(CMD + "balance:Harness_pure_function", Q, {"unit": u, "E": 2}, "real", "all", cover=["ran-twice"], note=units[u]) for u in range(10)] +
-    [run(CMD + "balance:Harness_pure_function", T, {"unit": u, "E": 3}, "real", "all", cover=["ran-twice"], note=units[u]) for u in range(8)] + [
+units = ["report-unresolved", "report-quantity", "report-quantity-desc", "report-totals", "register-group-by-food", "balance", "register", "register-old", "csv-database-resolved", "report-element-total", "balance-single-element", "balance-collapse", "balance-single-element-collapse-last"]
+fpunits = [3, 4, 5, 10, 12]
+specs["C05"] = {"runs": [run(CMD + "balance:Harness_pure_function", Q, {"unit": u, "E": 2}, "real", "all", cover=["ran-twice"], note=units[u]) for u in range(13)] +
+    [run(CMD + "balance:Harness_pure_function", Q, {"unit": u, "E": 3, "unitamounts": 1, "bookshapes": 2}, "fp", "all", cover=["ran-twice"], note=units[u] + ": IEEE-754 encoding, three entries, recipe amounts 1: a sum accumulated in map order differs in the last bit") for u in fpunits] +
+    [run(CMD + "balance:Harness_pure_function", T, {"unit": u, "E": 3}, "real", "all", cover=["ran-twice"], note=units[u]) for u in list(range(8)) + [10, 11, 12]] +
+    [run(CMD + "balance:Harness_pure_function", T, {"unit": u, "E": 4, "unitamounts": 1, "bookshapes": 2}, "fp", "all", cover=["ran-twice"], note=units[u] + ": IEEE-754 encoding") for u in fpunits] + [
     run("resolver:Harness_C05_resolve_twice", QT, {"K": 3, "M": 1, "L": 1, "Nmax": 4}, "fp", "all", cover=["ran-twice"]),
     run("resolver:Harness_C05_resolve_twice", T, {"K": 3, "M": 2, "L": 1, "Nmax": 4}, "fp", "all", cover=["ran-twice"]),
  ], "assumptions": [REAL, DATA, "self-composition: the unit is run twice on the same symbolic input in one path; the executor explores every pair of map visiting orders"],
@@ -116,8 +122,15 @@ specs["C07"] = {"runs": [
     run(CMD + "stats:Harness_stats_counts", QT, {"R": 3}, cover=["ran"]),
     run(CMD + "balance:Harness_golden_concrete", QT, {}, "fp", owned=["golden-"], cover=["golden-totals"], concrete_fmt=True, note="translator validation on the repository's golden `report totals` output"),
     run(CMD + "balance:Harness_reports_agree", T, {"D": 2, "E": 2}, "real", owned=agree_owned, cover=["totals-read"]),
+    run("cmd/hranoprovod-cli:Harness_app_pipeline", QT, {'command': 1, 'posbook': 1, 'E': 1, 'shapes': 3}, "real", cover=["ran"], note="whole application on book and log text with symbolic values: `report totals` = the model's signed period totals (every relation of the property is decided against one model computed from the same symbolic values)"),
+    run("cmd/hranoprovod-cli:Harness_app_pipeline", QT, {'command': 2}, "real", cover=["ran"], note='`balance -s x` grand total = period total of x (a recipe name that is also a category prefix of another)'),
+    run("cmd/hranoprovod-cli:Harness_app_pipeline", QT, {'command': 5}, "real", cover=["ran"], note='`report element-total x` rows = resolved amounts (the rows of `csv database-resolved`, command 4 in C13)'),
+    run("cmd/hranoprovod-cli:Harness_app_pipeline", QT, {'command': 6}, "real", cover=["ran"], note='`report quantity` = per-food sums over the period'),
+    run("cmd/hranoprovod-cli:Harness_app_pipeline", QT, {'command': 7}, "real", cover=["ran"], note='`report unresolved` = exactly the logged foods the book does not define'),
+    run("cmd/hranoprovod-cli:Harness_app_pipeline", QT, {'command': 11, 'posbook': 1, 'E': 1, 'shapes': 3}, "real", cover=["ran"], note="`register --totals-only` daily totals (default template, rendered) = the model's daily totals, whose sum is the period total"),
+    run("cmd/hranoprovod-cli:Harness_app_pipeline", QT, {'command': 13, 'posbook': 1, 'E': 1, 'shapes': 3}, "real", cover=["ran"], note='`summary DATE` = the totals and foods of that day as the register shows them'),
  ], "assumptions": [REAL, DATA],
- "outside_claim": ["stats day distances (Time.Sub and Hours()/24 truncation: 64-bit multiplication by 10^9 is out of reach for the solvers)", "summary = register for that day beyond both calling the same GetReportItem (C02, C12)", "element-total rows vs resolved-book CSV rows (both read the same resolved map; C13, C05)", "rendered text"],
+ "outside_claim": ["stats day distances (Time.Sub and Hours()/24 truncation: 64-bit multiplication by 10^9 is out of reach for the solvers)", "rendered digits"],
  "stubs": [FMT, BUFIO, CSVW, TIME]}
 
 c08 = [ls(7, Q, {"n": 3, "m": 2, "a": 4}, ["no-panic"]), ls(7, T, {"n": 3, "m": 2, "a": 6}, ["no-panic"])]
@@ -165,14 +178,17 @@ specs["C12"] = {"runs": [
     run(CMD + "balance:Harness_compose_per_day", Q, {"E": 1}, "real", cover=["composed"]),
     run(CMD + "balance:Harness_compose_period", Q, {"E": 2}, "real", cover=["composed"]),
     run(CMD + "balance:Harness_compose_stream", QT, {}, "fp", cover=["composed"], note="through the real parser: log1 ++ log2 as text, symbolic dates, empty day blocks"),
+    run("cmd/hranoprovod-cli:Harness_app_compose", QT, {}, "fp", cover=["composed"], note="whole application: 7 per-day command variants (default and left-aligned templates rendered, old reporter, csv log, print, single food, single element) on log1 ++ log2 vs log1 and log2: day blocks with symbolic dates (any order, same date), notes, an empty day, with or without --begin/--end"),
     run(CMD + "balance:Harness_compose_per_day", T, {"E": 2}, "real", cover=["composed"]),
     run(CMD + "balance:Harness_compose_period", T, {"E": 2, "bookshapes": 4}, "real", cover=["composed"]),
  ], "assumptions": [REAL, DATA, "two day blocks (same or different dates); longer histories follow by induction on the same two-block step, since reporters carry state only through the fields exercised here"],
- "outside_claim": ["rendered text of templates"], "stubs": [FMT, BUFIO, CSVW, TMPL]}
+ "outside_claim": ["rendered digits of numbers"], "stubs": [FMT, BUFIO, CSVW, TMPL]}
 
 specs["C13"] = {"runs": [
     run(CMD + "csv:Harness_csv_log", Q, {"n": 3, "m": 2}, cover=["exported"]),
     run(CMD + "csv:Harness_csv_database", Q, {"n": 3, "m": 2}, "fp", "all", cover=["exported"]),
+    run("cmd/hranoprovod-cli:Harness_app_pipeline", QT, {'command': 3}, "real", cover=["ran"], note='whole application, `csv log`: one row per (day, distinct food), ISO date, merged quantity'),
+    run("cmd/hranoprovod-cli:Harness_app_pipeline", QT, {'command': 4}, "real", cover=["ran"], note='whole application, `csv database-resolved`: one row per (recipe, resolved element) sorted, nested recipes and repeated ingredients'),
     run(CMD + "csv:Harness_csv_log", T, {"n": 4, "m": 2}, cover=["exported"]),
     run(CMD + "csv:Harness_csv_database", T, {"n": 4, "m": 2}, "fp", "all", cover=["exported"]),
  ], "assumptions": [PF, "names: first/last byte letter, digit or non-ASCII; inner bytes anything except CR/LF (commas, quotes, spaces included)"],
@@ -184,6 +200,8 @@ specs["C14"] = {"runs": [
     run(CMD + "print:Harness_print_roundtrip", T, {"n": 4, "layouts": 3}, render_max=6, cover=["read-back"]),
     run(CMD + "options:Harness_settings_precedence", QT, {}, owned=["print-layout=parse-layout"], cover=["loaded"]),
     run("_root:Harness_merge_duplicates", QT, {"E": 5}, "real", cover=["merged"], note="duplicates of a day merged: every repetition pattern of <=5 entries"),
+    run("cmd/hranoprovod-cli:Harness_app_pipeline", QT, {'command': 8}, "real", cover=["ran"], note='whole application, `print`: days in order, foods merged, quantities'),
+
  ], "assumptions": ["%0.2f renders to 4..6 bytes of the shape [-]digits.digits that strconv.ParseFloat accepts, and rendering ParseFloat(render(v)) gives render(v) again (library facts assumed as axioms)", "names as in C04; note keys/texts with ASCII letter/digit ends", PF],
  "outside_claim": ["time.Format/time.Parse being inverse for a layout", "periods (C06)"], "stubs": [FMT, BUFIO, TIME, REALSTD]}
 
@@ -195,11 +213,16 @@ specs["C15"] = {"runs": [
     run(CMD + "register:Harness_presentation_numbers", Q, {"E": 2}, "real", cover=["printed"]),
     run(CMD + "register:Harness_presentation_numbers", T, {"E": 3}, "real", cover=["printed"]),
     run(CMD + "reporter:Harness_day_item", Q, {"E": 2}, "real", owned=["foods-", "totals-", "food-", "total-", "ingredient-"], note="(Totals, TotalsOnly) in 2x2: what is shown is identical whenever shown"),
+    run("cmd/hranoprovod-cli:Harness_app_pipeline", QT, {'command': 9, 'posbook': 1, 'E': 1, 'shapes': 3}, "real", cover=["ran"], note='whole application, `register` with the default template rendered: same records and numbers as the model'),
+    run("cmd/hranoprovod-cli:Harness_app_pipeline", QT, {'command': 10, 'posbook': 1, 'E': 1, 'shapes': 3}, "real", cover=["ran"], note='`register --internal-template-name=left-aligned`: same records and numbers'),
+    run("cmd/hranoprovod-cli:Harness_app_pipeline", QT, {'command': 0, 'posbook': 1, 'E': 1, 'shapes': 3}, "real", cover=["ran"], note='`register --use-old-reg-reporter`: same records and numbers'),
+    run("cmd/hranoprovod-cli:Harness_app_pipeline", QT, {'command': 12, 'posbook': 1, 'E': 1, 'shapes': 3}, "real", cover=["ran"], note='`register --no-totals`: exactly the food part'),
+    run("cmd/hranoprovod-cli:Harness_app_pipeline", QT, {'command': 11, 'posbook': 1, 'E': 1, 'shapes': 3}, "real", cover=["ran"], note='`register --totals-only`: exactly the totals part'),
     run(CMD + "reporter:Harness_day_item_long_names", QT, {}, "real", cover=["item"], note="names longer than the columns that coincide after shortening: as foods outside the book, as elements of recipes, as recipes of the book"),
     run(CMD + "balance:Harness_balance_modes", Q, {"F": 2}, "real", owned=["collapse-"], cover=["printed"], note="collapse modes change only layout: same leaves and amounts (prefix-free sets), top-level rows add up to everything logged (every set)"),
     run(CMD + "balance:Harness_balance_modes", T, {"F": 3}, "real", owned=["collapse-"], cover=["printed"]),
  ], "assumptions": [REAL, DATA, "printable ASCII names for shortening"],
- "outside_claim": ["template text", "non-ASCII names in shorten", "--desc (C05 compares both orders separately)", "flag plumbing of presentation options (urfave/cli)"],
+ "outside_claim": ["non-ASCII names in shorten", "--desc (C05 compares both orders separately)", "flag plumbing of presentation options (urfave/cli)"],
  "stubs": [FMT, BUFIO, "github.com/aquilax/truncate: executed from its real SSA (math.Ceil/Floor intrinsics)"]}
 
 prec_owned = ["explicit-missing-config-is-error", "load-ok", "database:", "logfile:", "date-format:", "maxdepth:", "today:"]
